@@ -23,6 +23,7 @@ def run(rep):
     rep.guard(n5, rep, w)
     rep.guard(n6, rep, w)
     rep.guard(n8, rep, w, 'C15')
+    rep.guard(n9, rep, w)
     import c09
     rep.guard(c09.f5, rep, w)     # a fiber killed by a failed run is reported as finished by later snippets
     rep.guard(c09.f9, rep, w, 'C15')   # ... and never as new
@@ -374,3 +375,35 @@ def n8(rep, w, prop='C15'):
         r.check(('yarel::vm::Vm', fld) in wr, 'Vm.%s is restored by unwind_stack' % fld,
                 'Vm.%s is raised in %s and lowered in %s, but delivering an exception (unwind_stack) never touches it: every error that leaves the region in between '
                 'leaves the counter one too high for good' % (fld, sorted(x.rsplit('::', 1)[-1] for x in ups[fld]), sorted(x.rsplit('::', 1)[-1] for x in downs[fld])), u.loc())
+
+
+def n9(rep, w, prop='C15'):
+    """what an interpreter remembers lives in the Vm (and is reset with it) or in the heap: outside the allocator no function of the crate keeps
+    state in a thread-local or a static - a scratch buffer that is emptied only on success carries the bytes of a failed conversion into the next
+    call, whichever interpreter (or run) makes it. State that is entered and taken back within one call (a guard whose Drop restores it) is the one
+    accepted shape."""
+    import c05
+    r = rep.rule('N9', 'outside the allocator no function keeps state in a thread-local (except state that a guard takes back on every exit)', floor=0)
+    c = w.yarel
+    n = 0
+    for f in sorted(c.fns.values(), key=lambda x: x.path):
+        if f.file.endswith('memory.rs') or f.kind == 'Closure':
+            continue
+        uses = [(bi, t) for bi, t in f.calls() if strip_generics(callee_name(t) or '').startswith('std::thread::LocalKey::')]
+        if not uses:
+            continue
+        n += 1
+        closures = [g for g in c.fns.values() if g.kind == 'Closure' and g.parent == f.path]
+        writers = []
+        for g in closures:
+            for _, t in g.calls():
+                nm = strip_generics(callee_name(t) or '')
+                if nm.startswith(('std::cell::RefCell::borrow_mut', 'std::cell::Cell::set', 'std::cell::Cell::replace', 'std::cell::RefCell::replace', 'std::cell::Cell::take', 'std::cell::RefCell::take')):
+                    writers.append(g)
+                    break
+        direct = [strip_generics(callee_name(t)).rsplit('::', 1)[-1] for _, t in uses if strip_generics(callee_name(t)).rsplit('::', 1)[-1] in ('set', 'replace', 'take', 'with_borrow_mut')]
+        unscoped = [g.path for g in writers if not c05._scoped_pair_state(w, g)]
+        r.check(not unscoped and not direct, '%s / thread-local state is scoped' % f.path.replace('yarel::', ''),
+                '%s writes thread-local state that no guard takes back (%s): what one call leaves there is seen by the next call - of any run, on any interpreter of the thread'
+                % (f.path, sorted(unscoped) or direct), f.loc())
+    r.note('functions outside memory.rs that enter a thread-local: %d' % n)
